@@ -302,6 +302,8 @@ func lintFiles(c Case, url string) []lint.File {
 
 // run lints the case's files under one variant, in-process.
 func run(c Case, v variant, url string, metaCheck bool) (res runResult) {
+	// pint's per-run HTTP transport leaves idle connections behind (2 fds each, for 90s): drop them after every run
+	defer promsrv.Shared().CloseClientConnections()
 	opt := lint.Options{
 		ConfigHCL:  buildConfig(c, v, url),
 		Disabled:   v.cliDisabled,
